@@ -69,6 +69,38 @@ def _stable_repr(o) -> str:
     return "<{}:{}>".format(type(o).__module__, type(o).__qualname__)
 
 
+def _captured_constants(fn: Callable) -> tuple:
+    """
+    The immutable values (numbers, strings, bytes, None and tuples of those) held by the
+    closure cells of a function, in the order of `co_freevars`. Anything else a cell may hold
+    (functions, mutable containers, objects) is described by its type only, because it can
+    change while the program runs. Empty if the function is not a closure.
+
+    """
+
+    def is_constant(o) -> bool:
+        if isinstance(o, tuple):
+            return all(is_constant(x) for x in o)
+        return o is None or isinstance(o, (bool, int, float, complex, str, bytes))
+
+    captured = []
+    for cell in getattr(fn, "__closure__", None) or ():
+        try:
+            contents = cell.cell_contents
+        except ValueError:
+            # The variable is not bound (yet)
+            captured.append("<unbound>")
+            continue
+        captured.append(
+            contents
+            if is_constant(contents)
+            else "<{}:{}>".format(
+                type(contents).__module__, type(contents).__qualname__
+            )
+        )
+    return tuple(captured)
+
+
 def fn_code_hash(fn: Callable, salt: str = None, environment: bytes = None) -> str:
     """
     Compute a hex digest of the code for a function.
@@ -147,6 +179,13 @@ def fn_code_hash(fn: Callable, salt: str = None, environment: bytes = None) -> s
             sha256 = hashlib.sha256()
             sha256.update(result.encode("utf-8"))
             sha256.update(_stable_repr((defaults, kwdefaults)).encode("utf-8"))
+            result = sha256.hexdigest()[0:16]
+        # Neither are the values a closure captured from the function that made it
+        captured = _captured_constants(fn)
+        if captured:
+            sha256 = hashlib.sha256()
+            sha256.update(result.encode("utf-8"))
+            sha256.update(_stable_repr(("closure", captured)).encode("utf-8"))
             result = sha256.hexdigest()[0:16]
         return result
     else:
